@@ -36,7 +36,7 @@ class HashMap:
         self.value_serializer: typing.Callable = value_serializer
 
     def set_int_key(self, int_key: int, value):
-        if int_key.bit_length() > self.size:
+        if int_key < 0 or int_key.bit_length() > self.size:
             raise DictError('Key sizes must be the same.')
         self.map[int_key] = value
         return self
